@@ -407,7 +407,12 @@ class Gen:
                 form = self.r.choice(["hex", "file", "file"])
                 self.features.add("payload:" + form)
                 if form == "hex":
-                    pl[name] = self.safe_bytes(0, 50).hex().upper() if self.p(0.5) else self.safe_bytes(0, 50).hex()
+                    raw = self.safe_bytes(0, 50)
+                    if self.p(0.35):
+                        # payload bytes are arbitrary bytes: leading zero bytes (vector tables, padding), a leading 0x0? nibble, "0x"-like text
+                        self.features.add("payload:hex-leading-zeros")
+                        raw = self.r.choice([b"\x00", b"\x00\x00", b"\x00" * 4, b"\x0a", b"\x00\x78", b"\x0f\x00"]) + self.nbytes(self.r.randrange(0, 12))
+                    pl[name] = raw.hex().upper() if self.p(0.5) else raw.hex()
                 else:
                     content = self.safe_bytes(0, 80) if not self.big or not self.p(0.1) else bytes([0xFF]) + self.nbytes(self.r.choice([65535, 65536]))
                     pl[name] = self.new_file(content, "pl")
